@@ -15,9 +15,9 @@ Code the property is anchored in: {', '.join(p['anchors']['files'])}
 
 Rules
 1. Work ONLY in your own scratch worktree: `git -C /repo worktree add {wt} HEAD`, edit files there. Never edit, commit or check out anything in /repo itself. Do NOT read, list or use anything under /verif: your change must be independent of whatever checks exist there.
-2. The change must be the kind of mistake a maintainer or a refactoring could plausibly introduce (roughly 1-15 changed lines, no new dependencies, not an obvious sabotage like `panic!()`), it must compile, and the existing tests of every crate you touch must still pass. There is no network; all crates are already in ~/.cargo. To save build time start with a warm dependency cache: `cp -r /repo/target {wt}/target` and always set `CARGO_TARGET_DIR={wt}/target`. Run e.g. `cd {wt} && CARGO_TARGET_DIR={wt}/target cargo test -p <crate> --offline` for the crates you touched (sway-lsp's `lib` integration tests are slow and several of them fail already without any change - for sway-lsp run the unit tests: `cargo test -p sway-lsp --lib --offline`). For changes to the Sway standard library (`sway-lib-std/src/*.sw`) no Rust test executes that code; check instead that the library still compiles (build forc: `cargo build -p forc --offline`, then `target/debug/forc build --path sway-lib-std --offline`).
+2. The change must be the kind of mistake a maintainer or a refactoring could plausibly introduce (roughly 1-15 changed lines, no new dependencies, not an obvious sabotage like `panic!()`), it must compile, and the existing tests of every crate you touch must still pass. There is no network; all crates are already in ~/.cargo. To save disk and build time ALL builds use the shared, already warm target directory: always set `CARGO_TARGET_DIR=/tmp/seedtarget` (never copy /repo/target, never build into the worktree; cargo may wait on the directory lock while another build runs - that is expected). Run e.g. `cd {wt} && CARGO_TARGET_DIR=/tmp/seedtarget cargo test -p <crate> --offline` for the crates you touched (sway-lsp's `lib` integration tests are slow and several of them fail already without any change - for sway-lsp run the unit tests: `cargo test -p sway-lsp --lib --offline`). For changes to the Sway standard library (`sway-lib-std/src/*.sw`) no Rust test executes that code; check instead that the library still compiles (build forc: `cargo build -p forc --offline`, then `/tmp/seedtarget/debug/forc build --path sway-lib-std --offline`).
 3. Prefer a change that needs something SPECIFIC to manifest - a particular input shape or boundary value, a multi-step sequence of operations, an interleaving, a crash at a particular point, two cooperating sites that each look fine alone - not one that any ordinary use exposes at once. The machine is shared and busy: builds are slow, be economical (one or two candidate changes, not ten).
-4. Demonstration: a Rust test (may be a new `#[test]` in the touched crate, a file under `tests/`, or a tiny binary/example) or, for Sway library code, a small Sway package with `#[test]` functions run by `target/debug/forc test --path <pkg> --offline` (give the package `std = {{ path = "<worktree>/sway-lib-std" }}`). Show that it FAILS with the change and PASSES on the unchanged code (`git stash` / `git stash pop`, or a second worktree).
+4. Demonstration: a Rust test (may be a new `#[test]` in the touched crate, a file under `tests/`, or a tiny binary/example) or, for Sway library code, a small Sway package with `#[test]` functions run by `/tmp/seedtarget/debug/forc test --path <pkg> --offline` (give the package `std = {{ path = "<worktree>/sway-lib-std" }}`). Show that it FAILS with the change and PASSES on the unchanged code (`git stash` / `git stash pop`, or a second worktree).
 5. Deliverables, all under {wt}/OUT/ : `patch.diff` (output of `git -C {wt} diff` - the change ONLY, without the demonstration), `demo/` (the demonstration files and a `README` with the exact commands and the observed output with/without the change), `meta.json` = {{"property": "{pid}", "summary": "...", "what_it_breaks": "...", "needs_to_manifest": "...", "tests_run": ["..."]}}.
-6. When finished delete the build output to free disk (`rm -rf {wt}/target`) but leave the worktree and OUT/ in place. Report: the patch, why it breaks the property, what is needed to trigger it, which existing tests you ran.
+6. When finished leave the worktree and OUT/ in place (do not delete /tmp/seedtarget). Report: the patch, why it breaks the property, what is needed to trigger it, which existing tests you ran.
 """)
